@@ -310,6 +310,9 @@ var flowTemplates = []string{
 
 func genContact(r *hx.Rand, uuid string, id int, nchan []chanDef, telMode int) contactDef {
 	c := contactDef{UUID: uuid, ID: id}
+	if r.Fork("id0").Chance(1, 5) {
+		c.ID = 0 // contact without an id (new contact): shown as "0" under the policy when nameless
+	}
 	if r.Chance(1, 2) {
 		c.Name = hx.Pick(r, []string{"Ben Haggerty", "Ann", "Ryan Lewis", "  Bob  ", "X Æ A-12"})
 	}
@@ -459,6 +462,15 @@ func corpusScenarios() []*scenario {
 	d2.WithChild = false
 	d2.Resumes = d2.Resumes[:1]
 	out = append(out, d2)
+	// nameless contacts WITHOUT an id that do have URNs (still shown by id, i.e. "0", never by URN), also as parent
+	z := base("nameless-id0-with-urns", 0, "", fixed("tel", "tel:+12065551212", "tel:+12065559876"), fixed("twitterid", "twitterid:54784326227#nyaruka", "twitterid:11223344556#other"))
+	z.Contact.ID = 0
+	out = append(out, z)
+	zp := base("nameless-id0-parent-and-child", 2, "", fixed("telegram", "telegram:34642632786#bobby", "telegram:99887766554#alice"), fixed("tel", "tel:+250788123123", "tel:+250788999888"))
+	zp.Contact.ID = 0
+	zp.Trigger = "flow_action"
+	zp.Parent = &contactDef{UUID: parentCUUID, ID: 0, Name: "", Slots: []urnSlot{fixed("tel", "tel:+12065553333", "tel:+12065554444")}, Fields: map[string]any{}}
+	out = append(out, zp)
 	for i, sc := range out {
 		sc.ID = -1 - i
 	}
@@ -468,7 +480,10 @@ func corpusScenarios() []*scenario {
 // ---- JSON builders ------------------------------------------------------------------------------
 
 func (c *contactDef) json(side int) map[string]any {
-	m := map[string]any{"uuid": c.UUID, "id": c.ID, "status": "active", "created_on": "2000-01-01T00:00:00Z"}
+	m := map[string]any{"uuid": c.UUID, "status": "active", "created_on": "2000-01-01T00:00:00Z"}
+	if c.ID != 0 {
+		m["id"] = c.ID // id 0 = not set: the key is omitted
+	}
 	if c.Name != "" {
 		m["name"] = c.Name
 	}
